@@ -128,6 +128,11 @@ MUTATIONS = {
         ('webservice', 'tonic-web/src/service.rs', r'future: self\.inner\.call\(coerce_request\(req, encoding\)\),\s*accept,', 'future: self.inner.call(coerce_request(req, encoding)),\n                        accept: encoding,', 'response flavour taken from the request content-type instead of accept'),
     ],
     'C19': [
+        ('reflsvc', 'tonic-reflection/src/server/v1.rs', r'MessageRequest::FileByFilename\(s\) => state\.file_by_filename\(&s\)', 'MessageRequest::FileByFilename(s) => state.symbol_by_name(&s)', 'a file-by-name request is answered by the symbol lookup'),
+        ('reflsvc', 'tonic-reflection/src/server/v1.rs', r'valid_host: req\.host\.clone\(\),', 'valid_host: String::new(),', 'the reply does not echo the host'),
+        ('reflsvc', 'tonic-reflection/src/server/v1alpha.rs', r'state\.symbol_by_name\(&s\)', 'state.file_by_filename(&s)', 'v1alpha answers symbol requests differently from v1'),
+        ('reflsvc', 'tonic-reflection/src/server/v1.rs', r'name: s\.clone\(\)', 'name: String::new()', 'the service list carries empty names'),
+        ('reflsvc', 'tonic-reflection/src/server/v1alpha.rs', r'None => Err\(Status::invalid_argument\("invalid MessageRequest"\)\),', 'None => Err(Status::not_found("invalid MessageRequest")),', 'a request without a MessageRequest is reported as NOT_FOUND'),
         ('reflection', 'tonic-reflection/src/server/mod.rs', r'self\.process_message\(fd\.clone\(\), &message_name, nested\)\?;', 'self.process_message(fd.clone(), prefix, nested)?;', 'nested messages indexed under the outer prefix'),
         ('reflection', 'tonic-reflection/src/server/mod.rs', r'extract_name\(&enum_name, "enum value", value\.name\.as_ref\(\)\)\?', 'extract_name(prefix, "enum value", value.name.as_ref())?', 'enum values indexed without the enum name'),
         ('reflection', 'tonic-reflection/src/server/mod.rs', r'extract_name\(&service_name, "method", method\.name\.as_ref\(\)\)\?', 'extract_name(prefix, "method", method.name.as_ref())?', 'methods indexed without the service name'),
